@@ -388,11 +388,19 @@ def localOf (c : Cfg) (shape : List Nat) (ix : Nat) : LocalStats :=
   { ds := plainQV shape, dm := momQV c shape, m := momQV c shape, ag := avgGradOf c shape,
     tm := metricsOf c (statDims c shape).length, indexStart := ix, sizes := statDims c shape }
 
+/-- the explanatory `precond_dim` assertion of `sharded_init_fn` fires: the padded size is too small for
+the packed representation, or (no statistics at all) `precond_dim(0)` is evaluated inside the loop for a
+parameter that is not skipped -/
+def shardedInitRejects (c : Cfg) (ps : List (List Nat)) : Bool :=
+  decide (c.compRank ≠ 0) &&
+    (decide (c.r + 2 ≥ (globalDims c ps).2) ||
+     (decide (maxList (ps.flatMap (statDims c)) = 0) && ps.any (fun s => !skipParam c s)))
+
 /-- `sharded_init_fn(params)` -/
 def shardedInit (c : Cfg) (ps : List (List Nat)) : Except Err ShardedLayout := do
   validate c
   let (n, ms) := globalDims c ps
-  if c.compRank ≠ 0 ∧ c.r + 2 ≥ ms then .error (.reject .init .assertionError)
+  if shardedInitRejects c ps then .error (.reject .init .assertionError)
   else pure (
     { count := countLeaf
       gStats := f32Leaf [n, ms, ms]
